@@ -12,3 +12,4 @@ INVARIANT PatternShape
 INVARIANT MonotoneBeta
 INVARIANT MonotoneGamma
 INVARIANT AllOpenIsFull
+INVARIANT ExportEquivalentSameOpen
